@@ -14,6 +14,7 @@ def table (group : String) : Option (List (String × OpS)) :=
   | "alias" => some (ratOps opsAlias)
   | "lin" => some (ratOps opsLin)
   | "est" => some (ratOps opsEstRat ++ opsEstFloat)
+  | "eig" => some (ratOps opsEigRat ++ opsEigFloat)
   | _ => none
 
 def outLineS (x : Except Err (List String)) : String :=
